@@ -112,6 +112,7 @@ type Sim struct {
 	probes       counters
 	faults       counters
 	stamp        int64
+	lastStamp    int // step count at the latest Stamp
 	regSeq       int
 	reg          u64Table
 	regKeep      []any
@@ -356,7 +357,7 @@ func (s *Sim) loop() {
 		if s.fail != nil {
 			return
 		}
-		if s.steps >= s.cfg.MaxSteps {
+		if s.overBudget() {
 			s.aborted = "budget"
 			return
 		}
@@ -616,7 +617,7 @@ func (s *Sim) yield(site string, ch bool) *Task {
 		panic("simrt: Yield outside a task at " + site)
 	}
 	t.site = site
-	if !s.dirty && s.fail == nil && s.steps < s.cfg.MaxSteps {
+	if !s.dirty && s.fail == nil && !s.overBudget() {
 		next, fire := s.decide(t)
 		if next == t && !fire {
 			s.steps++
@@ -782,7 +783,18 @@ func CurrentID() int {
 func Stamp() int64 {
 	s := S
 	s.stamp++
+	s.lastStamp = s.steps
 	return s.stamp
+}
+
+// overBudget: the step budget is spent. A run in which the harness still records events (stamps: the
+// invocations and returns of its operations) is long, not stuck: while the last stamp is less than a
+// quarter of the budget old the budget extends, up to ten times.
+func (s *Sim) overBudget() bool {
+	if s.steps < s.cfg.MaxSteps {
+		return false
+	}
+	return s.steps >= 10*s.cfg.MaxSteps || s.steps-s.lastStamp >= s.cfg.MaxSteps/4
 }
 
 // Scale is 2 in runs with deeper bounds (thorough tier, half of the runs) and 1 otherwise; harnesses
